@@ -1,5 +1,5 @@
-(* model-only engine `unusedvarspec`: input = tree dump; output = <guard flags>|<unused_spec key_today, sorted>|<unused_spec_ext key_today, sorted>
-   guard flags: seven characters 0/1 for [WFtop; G_flat; G_dup; G_order; G_case; G_lit; G_pos]
+(* model-only engine `unusedvarspec`: input = tree dump; output = <guard flags>|<unused_spec, sorted>|<unused_spec_ext, sorted>
+   guard flags: five characters 0/1 for [WFtop; G_flat; G_dup; G_order; G_pos]
    (Proofs/UnusedVarProofs.v guard_flags); the second field lists what the tree-level specification
    of C15 requires, in the format of engine `unusedvar`; the third what the property
    read on the source text requires (call names and for-counters are mentions, an indexed member is a member). *)
@@ -12,6 +12,6 @@ let run_case (line : string) : string =
   if line = "" then "NOTREE" else
   let file = Tree_io.node_of_string line in
   let flags = Stdlib.String.concat "" (Stdlib.List.map (fun b -> if b then "1" else "0") (guard_flags key_today file)) in
-  let ds = Stdlib.List.map Eng_unusedvar.show_diag (unused_spec key_today file) in
-  let es = Stdlib.List.map Eng_unusedvar.show_diag (unused_spec_ext key_today file) in
+  let ds = Stdlib.List.map Eng_unusedvar.show_diag (unused_spec file) in
+  let es = Stdlib.List.map Eng_unusedvar.show_diag (unused_spec_ext file) in
   flags ^ "|" ^ Stdlib.String.concat ";" (Stdlib.List.sort compare ds) ^ "|" ^ Stdlib.String.concat ";" (Stdlib.List.sort compare es)
